@@ -175,6 +175,10 @@ static std::vector<Scenario> make_scenarios() {
     v.push_back(Scenario{"cif_pktitr_remove_packet", 1 | 2, false, false, [](S &s, const Params &p) -> int { (void) s; (void) p;  return cif_pktitr_remove_packet(s.it);  }, [](S &s) { (void) s;  }});
     v.push_back(Scenario{"cif_pktitr_close", 1 | 2, false, false, [](S &s, const Params &p) -> int { (void) s; (void) p;  int rc = cif_pktitr_close(s.it); s.it = nullptr; return rc;  }, [](S &s) { (void) s;  }});
     v.push_back(Scenario{"cif_pktitr_abort", 1 | 2, false, false, [](S &s, const Params &p) -> int { (void) s; (void) p;  int rc = cif_pktitr_abort(s.it); s.it = nullptr; return rc;  }, [](S &s) { (void) s;  }});
+    // appended later (replay files refer to scenarios by index, so new ones go at the end)
+    v.push_back(Scenario{"cif_container_set_value(existing scalar)", 1 | 8, true, false, [](S &s, const Params &p) -> int { (void) s; (void) p;  return cif_container_set_value(s.blk, U(u"_S2"), s.val2);  }, [](S &s) { (void) s;  }});
+    v.push_back(Scenario{"cif_container_set_value(big list, new scalar)", 1 | 512, true, false, [](S &s, const Params &p) -> int { (void) s; (void) p;  return cif_container_set_value(s.blk, U(u"_big_scalar"), s.val2);  }, [](S &s) { (void) s;  }});
+    v.push_back(Scenario{"cif_container_set_value(big list, existing looped)", 1 | 512, true, false, [](S &s, const Params &p) -> int { (void) s; (void) p;  return cif_container_set_value(s.blk, U(u"_l1"), s.val2);  }, [](S &s) { (void) s;  }});
     return v;
 }
 static const std::vector<Scenario> &scenarios() { static std::vector<Scenario> v = make_scenarios(); return v; }
@@ -188,6 +192,10 @@ static bool prepare(S &s, const Scenario &sc, const Params &p) {
     if (sc.needs & 16) { s.mval = Value::chr(u"-1.2345e+03(12)", false); if (cif_value_create(CIF_UNK_KIND, &s.val) != CIF_OK || cif_value_copy_char(s.val, U(u"-1.2345e+03(12)")) != CIF_OK) return false; }
     if (sc.needs & 32) { s.mval = Value::list({Value::chr(u"first"), pv(p.v2), Value::na(), Value::chr(u"fourth")}); s.mval2 = pv(p.v1); if (cm::to_cif(s.mval, &s.val) != CIF_OK || cm::to_cif(s.mval2, &s.val2) != CIF_OK) return false; }
     if (sc.needs & 64) { s.mval = Value::table({{u"k1", pv(p.v2)}, {u"é", Value::chr(u"accent")}, {u"", Value::unk()}}); s.mval2 = pv(p.v1); if (cm::to_cif(s.mval, &s.val) != CIF_OK || cm::to_cif(s.mval2, &s.val2) != CIF_OK) return false; }
+    if (sc.needs & 512) {   // a list whose serialised form outgrows the 512-byte serialisation buffer several times over
+        std::vector<Value> el; for (int i = 0; i < 60; i++) el.push_back(Value::chr(u16("element-" + std::to_string(100 + i) + "-xxxxxxxx")));
+        s.mval2 = Value::list(el); if (cm::to_cif(s.mval2, &s.val2) != CIF_OK) return false;
+    }
     if (sc.needs & 128) { UChar *n[] = {(UChar *) u"_a", (UChar *) u"_B", nullptr}; s.mval2 = pv(p.v1); if (cif_packet_create(&s.pkt2, n) != CIF_OK || cm::to_cif(s.mval2, &s.val2) != CIF_OK || cif_packet_set_item(s.pkt2, U(u"_a"), s.val2) != CIF_OK) return false; }
     return true;
 }
